@@ -100,13 +100,20 @@ func checkImage(c *harness.Ctx, v *simdisk.View, pre map[regionsim.Key][]byte, u
 }
 
 // tears returns the torn lengths to try for a write of n bytes.
-func tears(c *harness.Ctx, n int) []int {
+func tears(c *harness.Ctx, off int64, n int) []int {
 	var t []int
 	if n <= 1 {
 		return nil
 	}
 	for b := 512; b < n; b += 512 {
 		t = append(t, b)
+	}
+	// boundaries of the *file's* 512-byte blocks as well (a data write starts
+	// 4 bytes into its sector, so these differ from the write-relative ones)
+	if first := int(512 - off%512); first != 512 {
+		for b := first; b < n; b += 512 {
+			t = append(t, b)
+		}
 	}
 	if c.Tier != "thorough" && len(t) > 64 {
 		// boundaries nearest both ends plus samples
@@ -152,7 +159,7 @@ func enumerate(c *harness.Ctx, s *regionsim.Sim, k regionsim.Key, before []byte,
 			return false
 		}
 		if j < len(journal) {
-			for _, t := range tears(c, len(journal[j].Data)) {
+			for _, t := range tears(c, journal[j].Off, len(journal[j].Data)) {
 				what := fmt.Sprintf("crash with physical write %d of %d (offset %d, %d bytes) torn after %d bytes", j+1, len(journal), journal[j].Off, len(journal[j].Data), t)
 				fCrashTorn.Hit()
 				c.Evals++
